@@ -67,8 +67,25 @@ def ready(pid):
     return True, ""
 
 
+# third extension of tie C (DESIGN 12.18): what is additionally stated of the code text, per property
+EXTRA = {
+ "C01": " Third extension of tie C: the constructors and the operator dispatch (Timeline.__or__ / __and__ / __sub__ / __invert__, _flatten_sources, the __init__ of every node class, every _is_mask, Interval.__post_init__) regenerated from the source text (`C01_source_or_and_dispatch`, `C01_source_is_mask`, `C01_source_union_ctor_is_or`, ...).",
+ "C06": " `is_mask_is_source`: the model's mask flag is the one the regenerated _is_mask definitions of all classes compute.",
+ "C07": " RecurringPattern.__init__ (seven fragments tiling its body) regenerated from the source text: `src_init_rule_accepted`, `g_rp_init_eq`.",
+ "C08": " The public fetch() dispatcher regenerated from the source text (`g_recur_fetch_eq`).",
+ "C09": " CachedTimeline.__init__ and _get_key regenerated from the source text (`g_cached_init_is_cinit`, `g_cache_get_key_model`).",
+ "C12": " MemoryTimeline._remove_interval / _remove_recurring_instance / _remove_series / _add_interval / _add_recurring (id and metadata part) / fetch and the dispatch of MutableTimeline.add / remove / remove_series regenerated from the source text and proved equal to mstep / mfetch (`C12_source_*`, Proofs/GenEq_mem.v).",
+ "C13": " All of metrics.py regenerated from the source text (aggregation helpers, closures, _period_windows, _windowed_agg, _grouped_agg, the five public functions; `C13_source_*`, Proofs/GenEq_met.v; no division by zero in the code text: `g_cov_agg_den_pos`).",
+ "C14": " Timeline.__getitem__ (the clip of every bounded or half-open slice) regenerated from the source text (`C14_source_getitem_is_model`).",
+ "C17": " buffer() / merge_within() validation, _Buffered / _MergedWithin constructors and the reverse branch of _MergedWithin.fetch regenerated from the source text (`g_buffer_rejects_negative`, `g_buffer_chain_eq`, `g_merge_within_fetch_is_model`).",
+ "C18": " properties.py and the Filter classes regenerated from the source text with a value-level model that also says where Python raises (`C18_source_filter_apply_is_feval`, `C18_source_time_filters_are_feval`, Proofs/GenEq_filt*.v).",
+ "C19": " rrule_kwargs_to_rrule_string / to_rrule_string regenerated from the source text (`src_rrule_text_roundtrip`, Proofs/GenEq_rec.v).",
+ "C20": " 23 functions of gcsa.py regenerated from the source text (_infer_is_all_day, _fetch_reverse: `src_fetch_reverse_exactly_once`, _fetch_forward, the add paths, _add_recurring with the wall-clock series end and the same-zone all-day test, _remove_recurring_instance, the error wrapper; `C20_source_*`, Proofs/GenEq_gcsa*.v).",
+}
+
 checks, na = [], []
 for pid, (text, ref, note) in sorted(T.items()):
+    text = text + EXTRA.get(pid, "")
     ok, why = ready(pid)
     if not ok:
         na.append(dict(property_id=pid, reason=f"not claimed yet: {why} (planned, DESIGN.md section {ref})"))
